@@ -1,3 +1,5 @@
 pub mod c15;
 pub mod c02;
 pub mod c14;
+pub mod c17;
+pub mod c18;
